@@ -122,6 +122,10 @@ fn main() {
             "block" => {
                 rt.block_on(chmux_block::scenario(s));
             }
+            "rwlock" => {
+                let o = rwlock::RwOpts { remote: get("remote", 1) != 0, cancel: get("cancel", 1) != 0, cut: get("cut", 0) != 0, defer: get("defer", 1) };
+                rt.block_on(rwlock::scenario(s, &o));
+            }
             "peer_script" => {
                 // one scenario per line of the script file (TLC-generated behaviours)
                 let path = kv.get("script").expect("script=<file>").clone();
